@@ -74,7 +74,8 @@ def timeout_cases(rng, n):
     for i in range(n):
         n_jobs = rng.choice([2, 3])
         mode = rng.choice(["ordered", "unordered", "unordered"])
-        calls = [["call", n_jobs, rng.choice([1, 2, "all"]), mode, rng.randint(2, 7), None, [], 2.0],
+        tmo = 0 if i % 3 == 2 else 2.0     # timeout=0: "do not wait at all" (a request on a pending batch raises at once)
+        calls = [["call", n_jobs, rng.choice([1, 2, "all"]), mode, rng.randint(2, 7), None, [], tmo],
                  ["call", n_jobs, 2, mode, rng.randint(0, 5), None, [], None]]
         cases.append({"id": "t%d" % i, "seed": rng.randint(0, 10 ** 9), "calls": calls, "max_events": 80,
                       "stall_after": rng.choice([0, 1, 1, 2, 2, 3]), "p_close": 0.0, "p_call2": 0.0, "bsizes": [1, 2],
@@ -131,7 +132,10 @@ def coq_events(events):
             out.append("ECbFinish %d %d" % (e[1], e[2]))
         elif k == "pull":
             out.append("EPull")
-        elif k in ("close", "drop"):
+        elif k == "pulltimeout":
+            out.append("EPull")
+            out.append("ETimeout")
+        elif k in ("close", "drop", "xclose"):
             out.append("EClose")
         elif k == "timeout":
             out.append("ETimeout")
@@ -153,12 +157,19 @@ def model_runs(ctx, runs, guard=True, name="m1"):
     exprs = ["run_show %s init %s" % ("true" if guard else "false", coq_events(r["events"])) for r in runs]
     vals = ctx.coq_eval_lines(REQ, "", exprs, name=name, shard=40)
     out = []
-    for v in vals:
+    for v, r in zip(vals, runs):
         rows = parse_nested(v)
         # each row: [[obs...], [snap...]], [submitted...]]  after tuple flattening: [[obs, snap], submitted]
         norm = []
-        for row in rows:
-            obs, snap, sub = row
+        it = iter(rows)
+        for e in r["events"]:
+            try:
+                obs, snap, sub = next(it)
+                if e[0] == "pulltimeout":      # one real event = EPull; ETimeout
+                    obs2, snap, sub = next(it)
+                    obs = obs + obs2
+            except StopIteration:
+                break
             norm.append({"obs": obs, "snap": snap, "submitted": sub})
         out.append(norm)
     return out
@@ -226,7 +237,7 @@ def split_calls(run):
             if o[0] == "val":
                 cur["values"].append((o[1], o[2] if len(o) > 2 else None))
             elif o[0] == "stop":
-                if ev[0] in ("close", "drop"):
+                if ev[0] in ("close", "drop", "xclose"):
                     cur["closed"] = True
                 cur["outcome"] = cur["outcome"] or ["stop"]
             elif o[0] == "raised":
@@ -356,7 +367,7 @@ def oracle(run, profile_all=True):
         # C16 close: nothing is submitted after close, object not running
         closed_at = None
         for k, (e, s) in enumerate(zip(c["events"], c["snaps"])):
-            if e[0] in ("close", "drop"):
+            if e[0] in ("close", "drop", "xclose"):
                 closed_at = len(s["submitted"])
                 if s["running"]:
                     bad.append(("C16", "Parallel still running after the generator was closed"))
@@ -469,7 +480,7 @@ def strip_events(events):
             out.append(e[:3])
         else:
             out.append(e)
-            skip = e[1] if e[0] in ("close", "drop") and len(e) > 1 else None
+            skip = e[1] if e[0] in ("close", "drop", "xclose") and len(e) > 1 else None
     return out
 
 
